@@ -761,6 +761,41 @@ class Interp:
         axes = tuple(range(a.ndim - nax, a.ndim))
         return [dft_axes(a, axes, inverse=(kind == 1))]
 
+    def p_eigh(self, ins, params, eqn):
+        """symmetric eigendecomposition, closed form for 1x1 and 2x2 (ascending eigenvalues; the eigenvector signs LAPACK
+        may choose are irrelevant to callers that square the components); leading batch axes are looped over.
+        Degenerate 2x2 input (equal eigenvalues) is excluded by a definedness side condition."""
+        a = _asobj(ins[0])
+        n = a.shape[-1]
+        if a.shape[-2] != n or n > 2:
+            raise NotEncodable("eigh beyond 2x2")
+        batch = a.shape[:-2]
+        V = np.empty(batch + (n, n), dtype=object)
+        W = np.empty(batch + (n,), dtype=object)
+        for idx in np.ndindex(*batch):
+            m = a[idx]
+            if n == 1:
+                V[idx + (0, 0)] = 1
+                W[idx + (0,)] = m[0, 0]
+                continue
+            p, q, b = sc._lift(m[0, 0]), sc._lift(m[1, 1]), sc._lift(m[1, 0])     # lower triangle
+            mean, half = (p + q) / 2, (p - q) / 2
+            r = (half * half + b * b).sqrt()
+            ctx = sc.Ctx.cur
+            if ctx is not None:
+                ctx.need((r > 0).e)
+            l1, l2 = mean - r, mean + r
+            t1 = ((l2 - p) / (2 * r)).sqrt()          # first components: tau1^2 = (l2 - p)/(2r), tau2^2 = (p - l1)/(2r)
+            t2 = ((p - l1) / (2 * r)).sqrt()
+            sgn = sc.ite(b > 0, sc.SR(sc.q(-1)), sc.SR(sc.q(1)))
+            V[idx + (0, 0)], V[idx + (0, 1)] = t1, t2
+            V[idx + (1, 0)], V[idx + (1, 1)] = sgn * t2, (sgn * t1) * (-1)
+            W[idx + (0,)], W[idx + (1,)] = l1, l2
+        outs = []
+        for ov in eqn.outvars:
+            outs.append(V if len(ov.aval.shape) == len(batch) + 2 else W)
+        return outs
+
     def p_debug_callback(self, ins, params, eqn):
         """host callbacks (logging, conditional_raise) have no results: no-ops here; the symbolic inputs are kept for harnesses"""
         self.callbacks.append(ins)
